@@ -4,6 +4,7 @@ package qframe
 
 import (
 	"github.com/tobgu/qframe/config/csv"
+	"github.com/tobgu/qframe/config/eval"
 	"github.com/tobgu/qframe/config/groupby"
 	"github.com/tobgu/qframe/config/newqf"
 	"github.com/tobgu/qframe/internal/vx"
@@ -119,6 +120,21 @@ func c10invalid(f QFrame, which string) QFrame {
 		return f.Filter(And(Filter{Column: "a", Comparator: "isnull"}, Filter{Column: "zz", Comparator: "=", Arg: 1}))
 	case "empty_frame_invalid_filter":
 		return f.Slice(0, 0).Filter(Or(And(Filter{Column: "a", Comparator: "isnotnull"}), Filter{Column: "zz", Comparator: "=", Arg: 1}))
+	case "empty_frame_or_invalid_leaf_then_nested":
+		// the invalid member comes first, a valid nested clause after it, and there are no rows to merge
+		return f.Slice(0, 0).Filter(Or(Filter{Column: "zz", Comparator: "=", Arg: 1},
+			And(Filter{Column: "a", Comparator: "<", Arg: 3}, Filter{Column: "a", Comparator: func(x int) bool { c10cb(); return true }})))
+	case "filtered_out_or_invalid_leaf_then_nested":
+		return f.Filter(Filter{Column: "a", Comparator: "isnull"}).Filter(Or(Filter{Column: "zz", Comparator: "=", Arg: 1},
+			Not(Filter{Column: "a", Comparator: "<", Arg: 3}), And(Filter{Column: "a", Comparator: "<", Arg: 3})))
+	case "empty_frame_or_nested_invalid_then_nested":
+		return f.Slice(0, 0).Filter(Or(And(Filter{Column: "zz", Comparator: "=", Arg: 1}), And(Filter{Column: "a", Comparator: "<", Arg: 3})))
+	case "or_invalid_leaf_then_nested":
+		return f.Filter(Or(Filter{Column: "a", Comparator: "~~", Arg: 1}, And(Filter{Column: "a", Comparator: "<", Arg: vx.Int()}), Not(Filter{Column: "f", Comparator: "isnull"})))
+	case "and_nested_then_invalid_on_empty":
+		return f.Slice(0, 0).Filter(And(Or(Filter{Column: "a", Comparator: "<", Arg: 3}), Filter{Column: "zz", Comparator: "=", Arg: 1}))
+	case "not_invalid_on_empty":
+		return f.Slice(0, 0).Filter(Not(Filter{Column: "zz", Comparator: "=", Arg: 1}))
 	case "empty_frame_invalid_apply":
 		return f.Slice(0, 0).Apply(Instruction{Fn: func(x float64) int { c10cb(); return 0 }, DstCol: "z", SrcCol1: "a"})
 	case "empty_frame_invalid_sort":
@@ -163,6 +179,15 @@ func c10invalid(f QFrame, which string) QFrame {
 		return f.FilteredApply(Filter{Column: "a", Comparator: "=", Arg: 1}, Instruction{Fn: weird{}, DstCol: "z"})
 	case "eval_unknown_fn":
 		return f.Eval("z", Expr("nosuch", types.ColumnName("a"), 1))
+	case "eval_fn_of_other_ctx":
+		// a function registered in another context is unknown here (default context, then a fresh one)
+		other := eval.NewDefaultCtx()
+		other.SetFunc("twice", func(x int) int { return 2 * x })
+		_ = f.Eval("z", Expr("twice", types.ColumnName("a")), eval.EvalContext(other))
+		if vx.Bool() {
+			return f.Eval("z", Expr("twice", types.ColumnName("a")))
+		}
+		return f.Eval("z", Expr("twice", types.ColumnName("a")), eval.EvalContext(eval.NewDefaultCtx()))
 	case "eval_bad_dst":
 		return f.Eval("$z", Expr("+", types.ColumnName("a"), 1))
 	case "distinct_unknown":
